@@ -28,7 +28,9 @@ RULE = ("Callables are discovered by introspection of rsatoolbox.rdm/.data/.mode
         "parameter names (plus per-callable overrides) to Hypothesis argument strategies: RDM "
         "stacks (2-4 RDMs x 3-6 conditions, 8-10 for cross-validation; list/array descriptors, "
         "vector/matrix form, negative values for transforms), (Temporal)Datasets (conditions x "
-        "runs, rows permuted), the four model classes built from RDMs or arrays, Results, SPD "
+        "runs, rows permuted; for the Dataset/TemporalDataset subset_*/split_* methods additional "
+        "'@blocked' sub-checks on run- or cond-blocked rows and roi-blocked channels, blocks in "
+        "non-sorted order, so that every selection by value is a contiguous range), the four model classes built from RDMs or arrays, Results, SPD "
         "matrices, arrays, dicts, files. A case = {callable, argument recipe, seed for the "
         "library's own numpy draws, follow-ups}. (A) fingerprint (array bytes + descriptor values "
         "without the library-managed 'index') of every argument before == after the call; (B) "
@@ -238,6 +240,61 @@ for _e in ENTRIES.values():
     if _e.key not in EXCLUDED:
         resolve(_e)
 BY_SHORT = {e.short: e for e in ENTRIES.values()}
+
+
+# ---------------------------------------------------------------------------
+# blocked designs: (Temporal)Datasets whose observations are grouped by an obs descriptor and
+# whose channels are grouped by 'roi' (session-/run-blocked recordings, or data that went through
+# sort_by before). REG.D / REG.T permute the rows, so a selection by descriptor value is
+# (almost) never a contiguous range there; here every such selection is one.
+
+def _regroup(values, order_sorted_ok=False):
+    """stable grouping of positions by value, groups in first-occurrence order (rotated when
+    that order happens to be the sorted one, so that sorting still acts)"""
+    firsts = []
+    for v in values:
+        if v not in firsts:
+            firsts.append(v)
+    if len(firsts) >= 2 and firsts == sorted(firsts) and not order_sorted_ok:
+        firsts = firsts[1:] + firsts[:1]
+    return [i for f in firsts for i, v in enumerate(values) if v == f]
+
+
+def blocked(prov):
+    def wrapped(draw, dims):
+        r = dict(prov(draw, dims))
+        by = draw(st.sampled_from(['run', 'cond']))
+        rows = _regroup(r['odesc'][by])
+        r['meas'] = [r['meas'][i] for i in rows]
+        r['odesc'] = {k: [v[i] for i in rows] for k, v in r['odesc'].items()}
+        if r['kind'] == 'dataset':
+            cols = _regroup(r['cdesc']['roi'], order_sorted_ok=True)
+            r['meas'] = [[row[j] for j in cols] for row in r['meas']]
+            r['cdesc'] = {k: [v[j] for j in cols] for k, v in r['cdesc'].items()}
+        r['blocked'] = by
+        return r
+    return wrapped
+
+
+def blocked_variants():
+    out = []
+    for e in ENTRIES.values():
+        if e.key in EXCLUDED or e.reason is not None or e.cls is None:
+            continue
+        if e.cls.__name__ not in ('Dataset', 'TemporalDataset'):
+            continue
+        if category(e) != 'subset/indexing' or 'self' not in e.providers:
+            continue
+        if e.providers['self'] not in (REG.D, REG.T):
+            continue
+        v = Entry(e.key, e.func, cls=e.cls, static=e.static)
+        v.short = e.short + '@blocked'
+        v.params = list(e.params)
+        v.providers = dict(e.providers)
+        v.providers['self'] = blocked(e.providers['self'])
+        v.spec = e.spec
+        out.append(v)
+    return out
 
 
 def category(entry):
@@ -455,6 +512,7 @@ def classify(case):
     for fu in case['followups']:
         labels.append('fu:%s:%s' % (fu['target'], fu['action']))
     labels.append('followups:%s' % ('all' if len(case['followups']) == len(MENU) else 'single'))
+    labels += ['arg:blocked-by-' + p['blocked'] for p in pieces if p.get('blocked')]
     big = False
     for p in pieces:
         if p['kind'] in ('rdms', 'dataset', 'tds'):
@@ -475,6 +533,11 @@ for _e in ENTRIES.values():
                               thorough=_e.spec.get('_thorough', _q * 15),
                               max_reject_frac=_e.spec.get('_max_reject', 0.3),
                               doc='%s [%s]' % (_e.key, category(_e))))
+for _e in blocked_variants():
+    SUBCHECKS.append(SubCheck(_e.short, case_strategy(_e), check_case, classify, quick=12,
+                              thorough=120, max_reject_frac=_e.spec.get('_max_reject', 0.3),
+                              doc='%s [%s] on run-/cond-blocked datasets with roi-blocked '
+                                  'channels' % (_e.key, category(_e))))
 
 
 def evidence_extra():
